@@ -125,6 +125,52 @@ def S_zero(ctx):
     return S.const(0) if ctx.mode == 'sym' else 0.0
 
 
+def h_fresh_and_kinds(ctx, N, d):
+    """(a) the arrays a call returns are the caller's: changing them in place does not change what
+    later calls return; (b) the seed matrix S given with an integer type (identity, permutation,
+    nested list of ints) gives the tables of the same matrix in floating point; (c) the flag
+    as_full_matrix of extract_tensor given as numpy.False_ / 0 / numpy.True_ / 1 means False / True.
+    Concrete tables: decided by the run itself."""
+    algopy = symx.load_algopy()
+    import algopy.exact_interpolation as ei
+    J0 = np.array(ei.generate_multi_indices(N, d)).copy()
+    G0, R0 = [np.array(a, dtype=float).copy() for a in ei.generate_Gamma_and_rays(N, d)]
+    J1 = ei.generate_multi_indices(N, d)
+    G1, R1 = ei.generate_Gamma_and_rays(N, d)
+    J1 *= 2
+    G1 += 1.0
+    R1 *= 3.0
+    J2 = ei.generate_multi_indices(N, d)
+    G2, R2 = ei.generate_Gamma_and_rays(N, d)
+    ctx.fact(np.array_equal(np.asarray(J2), J0), 'multi-indices unchanged after a caller modified an earlier result in place')
+    ctx.fact(np.array_equal(np.asarray(G2, dtype=float), G0) and np.array_equal(np.asarray(R2, dtype=float), R0), 'Gamma and rays unchanged after a caller modified earlier results in place')
+    ctx.fact(not np.shares_memory(np.asarray(J2), np.asarray(J1)), 'two calls do not return the same array object')
+    # (b) integer-typed seed matrices
+    perm = np.eye(N)[::-1].copy()
+    for label, Si, Sf in (('integer identity', np.eye(N, dtype=int), np.eye(N)), ('integer permutation', perm.astype(int), perm),
+                          ('nested list of ints', [[int(v) for v in row] for row in perm], perm)):
+        try:
+            Gi, Ri = ei.generate_Gamma_and_rays(N, d, S=Si)
+            Gf, Rf = ei.generate_Gamma_and_rays(N, d, S=Sf)
+        except Exception as e:
+            ctx.fact(False, 'S given as %s raised %s' % (label, type(e).__name__))
+            continue
+        ctx.fact(np.allclose(np.asarray(Gi, dtype=float), np.asarray(Gf, dtype=float), rtol=1e-12, atol=0) and np.allclose(np.asarray(Ri, dtype=float), np.asarray(Rf, dtype=float)),
+                 'Gamma and rays for S given as %s equal those for the same matrix in floating point' % label)
+    # (c) flag kinds of the consumer
+    try:
+        x = algopy.UTPM.init_tensor(d, np.arange(1, N + 1, dtype=float))
+        y = algopy.sum(x * x * x) + x[0] * x[N - 1]
+        Tc = np.asarray(algopy.UTPM.extract_tensor(N, y, as_full_matrix=False), dtype=float)
+        Tf = np.asarray(algopy.UTPM.extract_tensor(N, y, as_full_matrix=True), dtype=float)
+        for flag, ref, label in ((np.False_, Tc, 'numpy.False_'), (0, Tc, '0'), (np.True_, Tf, 'numpy.True_'), (1, Tf, '1')):
+            got = np.asarray(algopy.UTPM.extract_tensor(N, y, as_full_matrix=flag), dtype=float)
+            ctx.fact(got.shape == ref.shape and np.allclose(got, ref), 'extract_tensor(as_full_matrix=%s) == extract_tensor(as_full_matrix=%s)' % (label, bool(flag)))
+    except Exception as e:
+        ctx.fact(False, 'init_tensor / extract_tensor after the calls above raised %s: %s' % (type(e).__name__, str(e)[:80]))
+    ctx.eq(S_zero(ctx), S_zero(ctx), 'freshness, seed-matrix kinds, flag kinds')
+
+
 def h_sequence(ctx, pairs):
     """tables requested one after the other in the same process (no state may leak between
     calls): in particular (N,d) pairs with the same number of multi-indices"""
@@ -187,6 +233,8 @@ def units(tier, seed):
     for sc in ('3/100000000000000', '1/100000000000000000000'):
         out.append(Unit('C15/consumer: program scaled by %s/N2,d3' % sc, 'symx.props.c09', 'h_tensor', {'N': 2, 'd': 3, 'm': 4, 'scale': sc},
                         {'property': PROP, 'float_tol': 2e-4}))
+    for (N_, d_) in ((2, 2), (1, 3), (3, 2)):
+        out.append(Unit('C15/returned arrays are fresh; integer seed matrices; flag kinds/N=%d d=%d' % (N_, d_), 'symx.props.c15', 'h_fresh_and_kinds', {'N': N_, 'd': d_}, {'property': PROP, 'validate': False}))
     out.append(Unit('C15/N and d given as NumPy integers (uint64, int64, uint8, int32)', 'symx.props.c15', 'h_int_kinds', {'N': 2, 'd': 3}, {'property': PROP, 'validate': False}))
     for N, d in ([(2, 3), (3, 2)] if tier == 'quick' else [(2, 3), (3, 2), (3, 3), (4, 2), (2, 5)]):
         out.append(Unit('C15/increment+binomial N=%d d=%d' % (N, d), 'symx.props.c15', 'h_increment', {'N': N, 'd': d},
